@@ -330,8 +330,26 @@ pub fn run(cli: &Cli, rep: &Report) {
     if thorough {
         items.extend(corpus::medium());
     }
-    // a BCJ2 stream is added by C11; here all container and filter readers
-    let rcases: Vec<RCase> = reader_cases(&items);
+    // all container and filter readers, plus BCJ2 streams (branch-dense real x86 code, every / every other branch
+    // converted by the harness's reference encoder): the main stream is the case's source, the call, jump and range
+    // coder streams are in memory
+    let mut rcases: Vec<RCase> = reader_cases(&items);
+    for (len, mode) in [(3000usize, 0u32), (3000, 2), (40_000, 0)] {
+        let code = gen::build(&[Seg::X(len)], 1);
+        let [main, call, jump, rc] = crate::c11::bcj2_encode_policy(&code, mode);
+        let size = code.len() as u64;
+        rcases.push(RCase {
+            name: format!("bcj2-x{len}-mode{mode}"),
+            family: "bcj2",
+            bytes: main,
+            expect: code,
+            open: Box::new(move |src| {
+                let inputs: Vec<Box<dyn io::Read + '_>> = vec![src, Box::new(io::Cursor::new(call.clone())), Box::new(io::Cursor::new(jump.clone())), Box::new(io::Cursor::new(rc.clone()))];
+                Ok(Box::new(lzma_rust2::filter::bcj2::BCJ2Reader::new(inputs, size)) as Box<dyn io::Read + '_>)
+            }),
+            complete_at: vec![],
+        });
+    }
     let dev_bound = if thorough { 3 } else { 2 };
     par_for_with(
         rcases.len(),
